@@ -200,6 +200,18 @@ def ensureTxn (σ : State) (s : Sid) : State × Bool :=
 def newPend (o : Obj) (os : ObjSt) (wa : List Attr) : List (Obj × Attr × Val) :=
   wa.filterMap (fun a => (os.vals a).map (fun v => (o, a, v)))
 
+/-- the optimistic part of the WHERE clause: none for a non-optimistic session or an object in `cache.for_update` -/
+def critCols (cfg : Cfg) (s : Sid) (locked : Bool) (os : ObjSt) : List Attr :=
+  if cfg.sessOpt s && !locked then optCols cfg os else []
+
+/-- `obj._dbvals_[attr]` / `obj._vals_[attr]` would raise KeyError -/
+def keyMissing (os : ObjSt) (cols wa : List Attr) : Bool :=
+  cols.any (fun a => (os.dbvals a).isNone) || wa.any (fun a => (os.vals a).isNone)
+
+/-- `WHERE pk = ? AND col = dbval AND …` evaluated on the row the connection of `s` sees (`rowcount == 1`) -/
+def whereOk (σ : State) (s : Sid) (o : Obj) (os : ObjSt) (cols : List Attr) : Bool :=
+  cols.all (fun a => os.dbvals a == some (view σ s o a))
+
 /-- [Entity._save_updated_] for the first object of `objects_to_save`:
     `UPDATE t SET written columns WHERE pk AND optimistic columns = dbvals`, `rowcount == 0` → OptimisticCheckError -/
 def saveHead (cfg : Cfg) (σ : State) (s : Sid) (o : Obj) (rest : List Obj) (done : Res) : State × Out :=
@@ -214,20 +226,23 @@ def saveHead (cfg : Cfg) (σ : State) (s : Sid) (o : Obj) (rest : List Obj) (don
     else
       let σ1 := r.1
       let ss := σ1.sess s
-      let cols := if cfg.sessOpt s && !ss.forUpd o then optCols cfg os else []
-      if cols.any (fun a => (os.dbvals a).isNone) || wa.any (fun a => (os.vals a).isNone) then
+      let cols := critCols cfg s (ss.forUpd o) os
+      if keyMissing os cols wa then
         (failSess cfg σ1 s, ⟨.keyError, none⟩)
-      else if cols.all (fun a => os.dbvals a == some (view σ1 s o a)) then
+      else if whereOk σ1 s o os cols then
         (σ1.withSess s { ss with objs := upd ss.objs o (os.afterSave cfg), toSave := rest,
                                  pend := newPend o os wa ++ ss.pend }, ⟨done, some o⟩)
       else (failSess cfg σ1 s, ⟨.optimisticCheckError, none⟩)
+
+/-- `if for_update: cache.immediate = True` -/
+def setImmIf (σ : State) (s : Sid) (imm : Bool) : State := if imm then setImmediate σ s else σ
 
 /-- a query: auto-flush first (one UPDATE per step), then the transaction mode, then the statement `k` -/
 def query (cfg : Cfg) (σ : State) (s : Sid) (imm : Bool) (k : State → State × Out) : State × Out :=
   match (σ.sess s).toSave with
   | o :: rest => saveHead cfg σ s o rest .flushing
   | [] =>
-    let r := ensureTxn (if imm then setImmediate σ s else σ) s
+    let r := ensureTxn (setImmIf σ s imm) s
     if !r.2 then (r.1, ⟨.blocked, none⟩) else k r.1
 
 def nonLazy (cfg : Cfg) : List Attr := cfg.attrs.filter (fun a => !cfg.lazy a)
